@@ -46,7 +46,7 @@ class Plan:
         self.jobs = 12
         self.per_harness_timeout = 900
         self.total_timeout = 2700
-        self.mem_gb = 20
+        self.mem_gb = 40  # address-space cap per process (kani-driver itself maps >20 GB with 12 threads and large goto binaries)
         self.slice = None  # for mode slice: dict(name, builder)
         self.rule = ""
         self.native_release = False
